@@ -30,7 +30,7 @@ def run(ctx):
     rng = ctx.rng("c12")
     tmp = tempfile.mkdtemp(prefix="dts_c12_")
     try:
-        ncase = 1 if ctx.quick else 6
+        ncase = 3 if ctx.quick else 20
         hosts = HOST_TZ[:3] if ctx.quick else HOST_TZ
         for c in range(ncase):
             # ---- Silixa double ended: the stamp carries +01:00; instants are stamp - 1 h
@@ -209,6 +209,8 @@ def run(ctx):
                             ctx.violation(f"sensornet:output-zone-instant-wrong:{kind}:{k}", f"{k} = {o[k][0]} read in {zone} is {'no existing wall-clock time' if not cands else cands[0].isoformat() + ' UTC'}; "
                                           f"the instant is {w.isoformat()} UTC (stamp {stamp.isoformat()} UTC, acquisition {fw}+{bw} s)", rec)
     finally:
+        from vlib.props.c11 import close_workers
+        close_workers()
         shutil.rmtree(tmp, ignore_errors=True)
 
 
